@@ -51,7 +51,7 @@ ASSUMPTIONS = [
 ]
 PROBES = ["deferred-commit", "precompiled-segment", "template-used", "flush-after-precompile", "nv-transpiler", "loop-in-precompiled",
           "value-crosses-precompile", "regfuture-in-precompiled", "two-precompiled-segments", "instantiated-more-than-once", "committed-without-instantiate",
-          "instantiate-retried-after-a-missing-value"]
+          "instantiate-retried-after-a-missing-value", "template-names-contained-in-one-another"]
 
 ALLOW = {"qblock", "qubit", "gate", "measure", "array", "loop", "loop-start-step", "rot", "add", "if", "empty-body", "regfuture"}
 
@@ -82,8 +82,14 @@ def templates_in(x: Any, acc: List[str]) -> None:
 LABELISH = ["LOOP", "IF_EXIT", "LOOP_EXIT", "LOOP1", "IF_EXIT1", "WHILE", "LOOP_EXIT1", "LOOP2"]
 
 
-def tname(i: int, labelish: bool) -> str:
-    """template names: t0, t1, ... or (per run) names that the builder also uses for its branch labels"""
+NESTED = ["theta", "theta_z", "a", "alpha", "th", "t", "x2", "x", "eta", "beta"]   # names contained in one another
+
+
+def tname(i: int, labelish: Any) -> str:
+    """template names: t0, t1, ... or (per run) names that the builder also uses for its branch labels, or names of which
+    one is a substring of another (both orders occur in the values dictionary)"""
+    if labelish == "nested":
+        return NESTED[i] if i < len(NESTED) else f"t{i}"
     return LABELISH[i] if labelish and i < len(LABELISH) else f"t{i}"
 
 
@@ -205,7 +211,10 @@ def run(ch: Choices, opts: Dict[str, Any]) -> Dict[str, Any]:
     allow = ALLOW if not nv else (ALLOW - {"loop", "if", "empty-body"})
     gen = HostGen(ch, max_qubits=budget - (1 if nv else 0), avoid=avoid, allow=allow, max_depth=2)
     counter = [0]
-    labelish = (not calm) and ch.flag(1, 4, "labelish-names")
+    nested_seen = [0]
+    labelish: Any = (not calm) and ch.flag(1, 4, "labelish-names")
+    if not calm and not labelish and ch.flag(1, 3, "nested-names"):
+        labelish = "nested"
     segments: List[Dict[str, Any]] = []
     for si in range(n_seg):
         stmts: List[tuple] = []
@@ -225,6 +234,10 @@ def run(ch: Choices, opts: Dict[str, Any]) -> Dict[str, Any]:
         # mostly ordinary numerators; sometimes values at and beyond the 8-bit immediate (both routes wrap those alike)
         BIG = [254, 255, 256, 257, 300, 511]
         values = {nm: (ch.draw(32, "tval") if not ch.flag(1, 6, "tbig") else BIG[ch.draw(len(BIG), "tbigv")]) for nm in names}
+        if labelish == "nested" and sum(1 for a in values for b in values if a != b and a in b):
+            nested_seen[0] += 1
+        if len(values) > 1 and ch.flag(1, 2, "values-order"):
+            values = dict(reversed(list(values.items())))      # the caller's dictionary lists the names in another order
         gen.flush_stmt()
         # a compiled subroutine may be committed later: after the next segment's operations were issued
         defer = pre and si < n_seg - 1 and ch.flag(1, 3, "defer")
@@ -239,6 +252,8 @@ def run(ch: Choices, opts: Dict[str, Any]) -> Dict[str, Any]:
         d[k] = d.get(k, 0) + n
 
     sample = {"segments": segments, "nv": nv, "budget": budget, "outcomes": script[:8]}
+    if nested_seen[0]:
+        bump(probes, "template-names-contained-in-one-another", nested_seen[0])
     A = System("A", script, budget, nv)
     B = System("B", script, budget, nv)
     if nv:
